@@ -45,6 +45,16 @@ CHECKS = {
  'C18': dict(sec='2/C18', tech='enumeration of generated table networks (one program per key of an enumerated key family) each validated on an enumerated block family against reference DES (engine P)',
              text='For 37 (thorough 106) keys - single-bit keys incl. parity bits, weak and semi-weak keys, parity-only variants, patterns - the tables are generated by the real code, checked structurally (16x12 total byte maps, M1/M2/M3 index ranges, key independence and repeatability) and evaluated through WhiteDES.enc on the single-bit block family and patterns against reference DES and the library DES.',
              note='Trusted: reference DES bound to OpenSSL. Keys and blocks are families, not all 2^64.'),
+
+ 'C11': dict(sec='2/C11', tech='exhaustive enumeration of bit lengths, byte lengths, salts, containers, BLAKE2 lengths and the full product of a BLAKE2 parameter alphabet (engine P); preset counter states on live objects (engine H); reference BLAKE with derived constants, hashlib for BLAKE2',
+             text='BLAKE-224/256/384/512 on every bit length 0..2B+cs+18, every byte length to 4 blocks, 6 salts x 3 container shapes around every boundary, preset counters crossing 2^w and 2^(w+1); BLAKE2s/2b on every byte length 0..4 blocks+1, every outlen, salt/personalization, and the full product of a 4x3x3x3x3x3 tree-parameter alphabet on 2 messages against hashlib; module-level singletons.',
+             note='Trusted: hashlib.blake2b/2s, mc/refs/blake.py (bound to the 8 submission vectors per run). BLAKE2 keys and short salts are not exercised.'),
+ 'C13': dict(sec='2/C13', tech='exhaustive enumeration of hash x key length 0..3 blocks x message (engine P) + explicit-state BFS over setkey/MAC histories on one HMAC object (engine H) against Python hmac / RFC 2104 over reference hashes',
+             text='13 hashes x every key length 0..3 blocks (quick: 17 boundary lengths) x 2 key patterns x 4 messages against hmac+hashlib (MD4 and BLAKE: RFC 2104 written out over the reference hash); all setkey/MAC histories to depth 3/4 on one object: every MAC equals that of the last key set.',
+             note='Trusted: Python hmac/hashlib, mc/refs/mdsha.py, mc/refs/blake.py.'),
+ 'C14': dict(sec='2/C14', tech='explicit-state BFS over all update histories (all compositions into block-aligned pieces incl. empty pieces, then a closing piece) on real hash objects, states deduplicated by (chaining value, bit counter, pad flag); confluence and reference-digest oracles (engine H); exhaustive cut positions for Nilsimsa (engine D)',
+             text='For 16 hashes and messages of 0..3/4 blocks plus 5 tail classes every history feed(0..3 blocks)* close is explored on a live object; after each piece the state must equal that of a fresh object fed the same prefix in one piece and the bit counter must equal the bits fed; every closing digest must equal the reference digest. Nilsimsa: every 1- and 2-cut of every message of length 0..12/16.',
+             note='Trusted: hashlib / reference hashes for the final digest. Known finding (recorded, not repaired): BLAKE2 closing with an empty final piece after whole blocks.'),
 }
 
 PENDING = {}
